@@ -887,9 +887,12 @@ func handleMessage(peer *Peer, m protocol.Message) error {
 			if length > 0 && n == uint32(length) {
 				peer.download.Accumulate(length)
 				peer.avgDownload.Accumulate(length)
+				// only the chunk we requested is released,
+				// however much data the peer sent
 				writeEvent(peer, TorData{peer,
 					m.Index, m.Begin,
-					uint32(length), complete})
+					min(uint32(length), config.ChunkSize),
+					complete})
 				// TorData implies active
 			} else {
 				if err != nil {
